@@ -66,7 +66,7 @@ typedef struct {
 } TcpDev;
 
 static void _telnet_init(Device *dev);
-static void _telnet_preprocess(Device * dev);
+static void _telnet_preprocess(Device * dev, int newlen);
 
 static void _parse_options(TcpDev *tcp, char *flags)
 {
@@ -276,9 +276,9 @@ void tcp_disconnect(Device * dev)
     dbg(DBG_DEVICE, "tcp_disconnect(%s): disconnected", dev->name);
 }
 
-void tcp_preprocess(Device *dev)
+void tcp_preprocess(Device *dev, int len)
 {
-    _telnet_preprocess(dev);
+    _telnet_preprocess(dev, len);
 }
 
 static void _telnet_sendopt(Device *dev, int cmd, int opt)
@@ -379,7 +379,7 @@ static void _telnet_init(Device * dev)
  * Except for a little bit of state stored in the dev->u.tcp union,
  * we do all the processing now.
  */
-static void _telnet_preprocess(Device * dev)
+static void _telnet_preprocess(Device * dev, int newlen)
 {
     static unsigned char peek[MAX_DEV_BUF];
     static unsigned char device[MAX_DEV_BUF];
@@ -387,7 +387,13 @@ static void _telnet_preprocess(Device * dev)
     int len, i, k;
 
     len = cbuf_peek(dev->from, peek, MAX_DEV_BUF);
-    for (i = 0, k = 0; i < len; i++) {
+    /* Only the last 'newlen' bytes are new: whatever is ahead of them was
+     * filtered when it arrived and must not be run through the state
+     * machine a second time.
+     */
+    k = (newlen >= 0 && newlen < len) ? len - newlen : 0;
+    memcpy(device, peek, k);
+    for (i = k; i < len; i++) {
         switch (tcp->tstate) {
         case TELNET_NONE:
             if (peek[i] == IAC)
